@@ -194,17 +194,21 @@ func ixBodies(pkgs map[string]*pkgInfo) {
 	want := []string{
 		"origins.parseScheme", "origins.parsePort", "origins.fastParseHost", "origins.lastByte",
 		"origins.splitAtCommonSuffix", "headers.TrimOWS", "headers.trimLeftOWS", "headers.trimRightOWS",
-		"headers.cutAtComma",
+		"headers.cutAtComma", "headers.First", "origins.insert", "util.MakeASCIISet", "util.(*ASCIISet).Contains",
 	}
 	found := map[string]string{}
 	for _, p := range pkgs {
 		for _, f := range p.files {
 			for _, d := range f.Decls {
 				fd, ok := d.(*ast.FuncDecl)
-				if !ok || fd.Recv != nil || fd.Body == nil {
+				if !ok || fd.Body == nil {
 					continue
 				}
-				found[p.name+"."+fd.Name.Name] = exprText(fd.Type) + " " + codeText(fd.Body)
+				key := p.name + "." + fd.Name.Name
+				if fd.Recv != nil && len(fd.Recv.List) == 1 {
+					key = p.name + ".(" + exprText(fd.Recv.List[0].Type) + ")." + fd.Name.Name
+				}
+				found[key] = exprText(fd.Type) + " " + codeText(fd.Body)
 			}
 		}
 	}
